@@ -25,5 +25,48 @@ def run(ctx, rep):
     _strunits.run(F, rep)
     _strunits.strip_once(F, rep)
     _strunits.marker_radix(F, rep)
+    domain_probes(F, rep)
     if _casts is not None:
         _casts.run_c14(F, rep)
+
+
+
+def domain_probes(F, rep):
+    """Integer-kind receivers of the conversion methods: inside the target's domain the method answers (no failure path), outside it fails (no
+    value).  Each row is one evaluation of the method's arm of BuiltInFunction::run on a concrete receiver - the boundary values of the target
+    and, for to_float, of the 53-bit mantissa (std's TryFrom, bit counts and checked_abs on known integers are modelled exactly)."""
+    from absint import Int
+    B = _builtins.Builtins(F)
+    I32, I128, U8 = "i32", "i128", "u8"
+    rows = [
+        ("to_float", "GenericToFloat", "BigInt", 2**32, I128, "Float"), ("to_float", "GenericToFloat", "BigInt", -(2**32), I128, "Float"),
+        ("to_float", "GenericToFloat", "BigInt", 2**53, I128, "Float"), ("to_float", "GenericToFloat", "BigInt", 2**53 + 1, I128, None),
+        ("to_float", "GenericToFloat", "BigInt", -(2**127), I128, "Float"), ("to_float", "GenericToFloat", "BigInt", 2**127 - 1, I128, None),
+        ("to_float", "GenericToFloat", "BigInt", 0, I128, "Float"), ("to_float", "GenericToFloat", "Int", -(2**31), I32, "Float"),
+        ("to_int", "GenericToInt", "BigInt", 2**31 - 1, I128, "Int"), ("to_int", "GenericToInt", "BigInt", 2**31, I128, None),
+        ("to_int", "GenericToInt", "BigInt", -(2**31), I128, "Int"), ("to_int", "GenericToInt", "BigInt", -(2**31) - 1, I128, None),
+        ("to_int", "GenericToInt", "Byte", 255, U8, "Int"),
+        ("to_byte", "GenericToByte", "Int", 255, I32, "Byte"), ("to_byte", "GenericToByte", "Int", 256, I32, None), ("to_byte", "GenericToByte", "Int", -1, I32, None),
+        ("to_byte", "GenericToByte", "BigInt", 255, I128, "Byte"), ("to_byte", "GenericToByte", "BigInt", 2**40, I128, None),
+        ("to_bigint", "GenericToBigint", "Int", -(2**31), I32, "BigInt"), ("to_bigint", "GenericToBigint", "Byte", 255, U8, "BigInt"),
+        ("abs", "GenericAbs", "Int", -(2**31), I32, None), ("abs", "GenericAbs", "Int", -(2**31) + 1, I32, "Int"),
+        ("abs", "GenericAbs", "BigInt", -(2**127), I128, None), ("abs", "GenericAbs", "BigInt", -(2**127) + 1, I128, "BigInt"),
+    ]
+    n = 0
+    for meth, variant, kind, val, ty, want in rows:
+        r = B.arm(variant, kind, Int(val, ty))
+        n += 1
+        key = "C14.domain|%s|%s|%d" % (meth, kind.lower(), val)
+        inst = "%s(%d).%s() %s" % (kind.lower(), val, meth, ("is a %s" % want.lower()) if want else "fails")
+        if r["undecided"] or r["panics"]:
+            rep.ob("C14.domain", inst, "undecided" if not r["panics"] else "violated", "undecided: %s; panics: %d" % (r["undecided"][:2], r["panics"]), None,
+                   fn="bytecode::function::BuiltInFunction::run", key=key)
+            continue
+        if want:
+            ok = r["rets"] == {want} and r["errs"] == 0
+            why = "" if ok else "in the domain of the target, but the arm %s" % ("fails" if r["errs"] else "returns %s" % sorted(r["rets"]))
+        else:
+            ok = not r["rets"] and r["errs"] > 0
+            why = "" if ok else "outside the domain of the target, but the arm returns %s" % sorted(r["rets"])
+        rep.ob("C14.domain", inst, "ok" if ok else "violated", why, None, fn="bytecode::function::BuiltInFunction::run", key=key)
+    rep.floor("C14.domain probes", n, 20)
